@@ -308,6 +308,40 @@ impl TokenAccess for TokenStream<'_> {
     }
 }
 
+/// Verification hook H3 (only with `--cfg vhdl_ls_rust_hdl_verif`): a per-thread record of the
+/// cursor `(idx, token_offset, tokens.len())` of a token stream, pushed by `verif_mark`.
+/// `parse_design_file` marks the top of every iteration of its loop and the loop's exit, so
+/// that the harness can replay the iterations through the Coq model of the loop.
+#[cfg(vhdl_ls_rust_hdl_verif)]
+thread_local! {
+    static VERIF_LOOP_TRACE: std::cell::RefCell<Vec<(usize, usize, usize)>> =
+        const { std::cell::RefCell::new(Vec::new()) };
+}
+
+#[cfg(vhdl_ls_rust_hdl_verif)]
+impl TokenStream<'_> {
+    /// Appends `(idx, token_offset, tokens.len())` to the per-thread trace (at most 2^20 entries)
+    pub fn verif_mark(&self) {
+        VERIF_LOOP_TRACE.with(|trace| {
+            let mut trace = trace.borrow_mut();
+            if trace.len() < (1 << 20) {
+                trace.push((self.get_idx(), self.token_offset.get(), self.tokens.len()));
+            }
+        });
+    }
+
+    /// The current `token_offset`
+    pub fn verif_token_offset(&self) -> usize {
+        self.token_offset.get()
+    }
+}
+
+/// Verification hook H3: takes (and clears) the per-thread trace written by `verif_mark`
+#[cfg(vhdl_ls_rust_hdl_verif)]
+pub fn verif_take_loop_trace() -> Vec<(usize, usize, usize)> {
+    VERIF_LOOP_TRACE.with(|trace| std::mem::take(&mut *trace.borrow_mut()))
+}
+
 pub trait Recover<T> {
     fn or_recover_until<F>(self, ctx: &mut ParsingContext<'_>, cond: F) -> DiagnosticResult<T>
     where
